@@ -7,7 +7,7 @@ TRACE = "ShutdownObsTrace"
 LAYERS = [
     {"t": "map", "fn": "tag"}, {"t": "flat_map", "fn": "later"}, {"t": "retry", "max": 3, "sleep": 400},
     {"t": "poll", "mode": "second"}, {"t": "throttle", "count": 1}, {"t": "throttle", "count": 1, "block": True},
-    {"t": "timeout", "T": 700}, {"t": "timeout", "T": 100000}, {"t": "cos"},
+    {"t": "timeout", "T": 700}, {"t": "timeout", "T": 100000}, {"t": "cos"}, {"t": "poll", "mode": "never"},
 ]
 
 
@@ -27,7 +27,7 @@ def gen(rng, i):
         subs = subs[:2]
     return {"base": rng.choice(["sync", "pool", "pool"]), "workers": rng.choice([1, 2]), "layers": layers, "subs": subs,
             "shutdown": {"at": at, "wait": rng.random() < 0.7, "repeat": rng.choice([1, 1, 2, 3]),
-                         "threads": rng.choice([1, 1, 2, 3])},
+                         "threads": rng.choice([1, 1, 2, 3]), "cancel_futures": rng.choice([None, None, True, False])},
             "horizon": 40000}
 
 
